@@ -5,7 +5,10 @@
   operands, and `evalTmp` = "evaluate every sub-expression into its own temporary with the C
   function": mpz = exact `Int` arithmetic (tdiv rounding for / and %, floor for >>, two's complement
   for & | ^ ~), mpq = exact canonical rationals (core `Rat`).  A raised MPIR exception (division by
-  zero, sqrt of a negative, non-finite double) is `none`.
+  zero, sqrt of a negative, non-finite double) is `none`.  The accessor sub-objects `q.get_num()` /
+  `q.get_den()` are mpz-typed leaves (`E.zn` / `E.zd`) reading a component of the mpq store; on the
+  implementation side they are the field objects `.num i` / `.den i` of the heap (statements THROUGH
+  the accessors: Model/CxxAcc.lean).
 
   Part 2 (what mpirxx.h does): a heap of mpz_t objects (`ZLoc`: variables, temporaries and the num/den
   fields of mpq_t objects), the C functions used by mpirxx.h as heap transformers (their meaning is
